@@ -71,6 +71,27 @@ def origins(prog, fn, v, _seen=None, depth=0):
         if nf is not None and len(nf[1]) == 1 and nf[1][0] in LINKS:
             return {('link', nf[0], nf[1][0])}
         root = v.args[0]
+        if root.kind == 'phi':
+            # a reference chosen among several (e.g. `node = self.node(node.left)` in a loop): distribute
+            out = set()
+            for a in root.args:
+                sa = strip(a)
+                if sa.id in _seen:
+                    continue
+                na = prog.accessor_call(sa)
+                flds = v.fields()
+                if na is not None and len(flds) == 1 and flds[0] in LINKS:
+                    out.add(('link', na[2], flds[0]))
+                elif sa.kind == 'phi':
+                    _seen.add(sa.id)
+                    continue
+                else:
+                    out.add(('other', show(v, 3)))
+            if out:
+                return out
+        rf = record_field_origins(prog, fn, v, _seen, depth)
+        if rf is not None:
+            return rf
         # payload of Option returned by pop()/next()/binary search
         if root.kind == 'call':
             inner = root
@@ -135,6 +156,76 @@ def origins(prog, fn, v, _seen=None, depth=0):
     if k == 'update':
         return origins(prog, fn, v.args[0], _seen, depth) | origins(prog, fn, v.args[2], _seen, depth)
     return {('other', k)}
+
+
+def record_writes(prog):
+    """flow-insensitive summary of plain record types (not arena nodes): (ADT, field) -> [(fn, Val)] every value ever
+    written to that field, by aggregate construction or by a store"""
+    key = ('recordwrites',)
+    if key in prog._summ_cache:
+        return prog._summ_cache[key]
+    out = {}
+    for fn in prog.fns.values():
+        b = fn.body
+        for v in b._vals:
+            if v.kind == 'agg' and v.extra.get('akind') == 'adt' and v.extra.get('variant'):
+                names = v.extra['variant']['fields']
+                if len(names) == len(v.args):
+                    for nm, a in zip(names, v.args):
+                        out.setdefault((v.extra['path'], nm), []).append((fn, a))
+        for st in b.stores:
+            if st.owner and st.fields():
+                out.setdefault((st.owner, st.fields()[-1]), []).append((fn, st.value))
+    prog._summ_cache[key] = out
+    return out
+
+
+def record_field_origins(prog, fn, v, _seen, depth):
+    """origins of a u32 field read from a plain record whose provenance is not tracked (e.g. a frame of an
+    explicit stack): the union over everything ever written to that field anywhere in the crate"""
+    owner = v.extra.get('last_owner')
+    if not owner or owner in prog.node_adts or owner in prog.tree_adts or owner in prog.pool_adts or v.ty != 'u32':
+        return None
+    if owner not in prog.adts or depth > 4:
+        return None
+    if prog.self_field(v) is not None or prog.node_field(v) is not None:
+        return None
+    writes = record_writes(prog).get((owner, v.fields()[-1]))
+    if not writes:
+        return None
+    out = set()
+    for (wfn, val) in writes:
+        sv = strip(val)
+        if sv.kind == 'load' and strip(sv.args[0]).kind == 'param' and len(sv.fields()) == 1 and sv.fields()[0] in LINKS:
+            # a link copied out of a node passed by reference: resolve the reference at the callers
+            k = strip(sv.args[0]).args[0]
+            callers = prog.callers(wfn)
+            resolved = bool(callers)
+            for call, cfn in callers:
+                arg = strip(call.args[k - 1]) if call.kind == 'call' and k - 1 < len(call.args) else None
+                if arg is not None and prog.accessor_call(arg) is not None:
+                    out.add(('link', ('opaque', 'node passed to %s' % wfn.name), sv.fields()[0]))
+                else:
+                    resolved = False
+            if resolved:
+                continue
+        for a in origins(prog, wfn, val, None, depth + 1):
+            if a[0] == 'param':
+                # parameter of a constructor-like function: take what its callers pass
+                k = a[1]
+                callers = prog.callers(wfn)
+                if not callers:
+                    out.add(('other', 'param of uncalled %s' % wfn.name))
+                for call, cfn in callers:
+                    if call.kind == 'call' and k - 1 < len(call.args):
+                        sub = origins(prog, cfn, call.args[k - 1], None, depth + 2)
+                        out |= {x for x in sub}
+            elif a[0] == 'link' and hasattr(a[1], 'kind'):
+                # link of a node designated by a value of another function: keep it as a link of an opaque base
+                out.add(('link', ('opaque', show(strip(a[1]), 2)), a[2]))
+            else:
+                out.add(a)
+    return out
 
 
 def subst_base(base, call):
